@@ -219,7 +219,10 @@ ValidShape(sh) ==
   /\ (sh.async # "none" => \A i \in 1..Len(sh.params) : sh.params[i] \notin {"into"})
   /\ Cardinality({ i \in 1..Len(sh.params) : sh.params[i] \in {"gen", "into"} }) <= 1
   /\ ((\E i \in 1..Len(sh.params) : sh.params[i] \in {"mlvec", "tstr"}) => sh.async = "none" /\ sh.api # "hidden")
-  /\ ((\E i \in 1..Len(sh.params) : sh.params[i] = "tstr") => sh.ret \notin {"assoc", "pref"})
+  \* (measured: a trait with a lifetime parameter does not expand to valid Rust with the flattened api form `api=[F]`,
+  \*  nor when one of its methods has a type parameter)
+  /\ ((\E i \in 1..Len(sh.params) : sh.params[i] = "tstr") => sh.ret \notin {"assoc", "pref"} /\ sh.api = "module"
+                                                                /\ \A i \in 1..Len(sh.params) : sh.params[i] \notin {"gen", "into"})
 Forward(sh) ==
   [matcher |-> [i \in 1..Len(sh.params) |-> MatcherView(sh.params[i], i)],
    answer  |-> [i \in 1..Len(sh.params) |-> AnswerView(sh.params[i], i)],
